@@ -6,6 +6,7 @@ import json
 import os
 import random
 import signal
+import sys
 import threading
 import time
 
@@ -22,8 +23,20 @@ def scenario(sc, results, lock):
 
     group = execnet.Group()
     import atexit
+    import re
+    import subprocess
 
     atexit.unregister(group._cleanup_atexit)
+    # stand-alone socket servers (execnet/script/socketserver.py run by hand): not started by the group, nothing terminate() could kill
+    servers = {}
+    for i, g in enumerate(sc["gws"]):
+        if g["topo"] == "socket_standalone":
+            import execnet.script.socketserver as _ss
+
+            sp = subprocess.Popen([sys.executable, "-u", _ss.__file__, "127.0.0.1:0"], stdout=subprocess.PIPE, stderr=subprocess.STDOUT,
+                                  env={**os.environ, "PYTHONPATH": os.path.dirname(os.path.dirname(os.path.dirname(_ss.__file__)))})
+            m = re.search(r"\('127\.0\.0\.1', (\d+)\)", sp.stdout.readline().decode())
+            servers[i] = (sp, int(m.group(1)) if m else 0)
     mine_before = procs.descendants(os.getpid())
     out = {"k": "terminate", "timeout_ms": int(sc["timeout"] * 1000), "rounds": 1, "n": len(sc["gws"]), "elapsed_ms": 0, "group_len": -1,
            "leftover": -1, "err": "", "sc": sc}
@@ -41,6 +54,8 @@ def scenario(sc, results, lock):
                 m = group.makegateway("popen")
                 gw = group.makegateway(f"socket//installvia={m.id}//execmodel={em}")
                 out["rounds"] = 2
+            elif topo == "socket_standalone":
+                gw = group.makegateway(f"socket=127.0.0.1:{servers[i][1]}//execmodel={em}")
             pid = gw.remote_exec("import os\nchannel.send(os.getpid())").receive(30)
             pids.append(pid)
             body = BODIES[g["env"]] if g["env"] not in ("stopped", "dead") else None
@@ -55,11 +70,18 @@ def scenario(sc, results, lock):
                 os.kill(g["pid"], signal.SIGKILL)
         started = (procs.descendants(os.getpid()) | set(pids)) - mine_before
         t0 = time.monotonic()
-        try:
-            group.terminate(timeout=sc["timeout"])
-        except Exception as e:  # noqa: BLE001
-            out["err"] = type(e).__name__
-        out["elapsed_ms"] = int((time.monotonic() - t0) * 1000)
+
+        def _terminate():
+            try:
+                group.terminate(timeout=sc["timeout"])
+            except Exception as e:  # noqa: BLE001
+                out["err"] = type(e).__name__
+
+        # watchdog: a terminate() that never returns is a (very late) result, not a hung check
+        tt = threading.Thread(target=_terminate, daemon=True)
+        tt.start()
+        tt.join(20 * sc["timeout"] + 30)
+        out["elapsed_ms"] = int((time.monotonic() - t0) * 1000) if not tt.is_alive() else 10 ** 7
         out["group_len"] = len(group)
         gone = procs.wait_gone(started, 1.5)
         left = [p for p, ms in gone.items() if ms == -1]
@@ -74,6 +96,14 @@ def scenario(sc, results, lock):
     except Exception as e:  # noqa: BLE001
         out["err"] = "harness:" + type(e).__name__ + ":" + str(e)[:100]
         procs.reap(pids)
+    for sp, _port in servers.values():
+        try:
+            os.kill(sp.pid, signal.SIGCONT)
+        except OSError:
+            pass
+        sp.kill()
+        sp.wait()
+        sp.stdout.close()
     with lock:
         results.append(out)
 
@@ -288,6 +318,9 @@ def run(ctx):
         {"timeout": 0.5, "gws": [{"env": "atexit_hang", "execmodel": "thread", "topo": "via"}]},
         {"timeout": 0.5, "gws": [{"env": "nondaemon", "execmodel": "thread", "topo": "via"}]},
         {"timeout": 0.5, "gws": [{"env": "busy", "execmodel": "thread", "topo": "socket"}]},
+        # a socket worker that was started by hand and does not come down: nothing to kill, terminate() must not wait for it either
+        {"timeout": 0.5, "gws": [{"env": "swallow", "execmodel": "thread", "topo": "socket_standalone"}, {"env": "swallow", "execmodel": "thread", "topo": "popen"}]},
+        {"timeout": 0.3, "gws": [{"env": "stopped", "execmodel": "thread", "topo": "socket_standalone"}]},
         {"timeout": 1.0, "gws": [{"env": "sleep", "execmodel": "gevent", "topo": "popen"}]},
         {"timeout": 0.2, "gws": [{"env": "sigign", "execmodel": "main_thread_only", "topo": "popen"}, {"env": "stopped", "execmodel": "thread", "topo": "popen"}]},
     ]
@@ -295,7 +328,7 @@ def run(ctx):
         for _ in range(40):
             scs.append({"timeout": rng.choice([0.2, 0.5, 1.0]),
                         "gws": [{"env": rng.choice(envs), "execmodel": rng.choice(["thread", "main_thread_only", "gevent"]),
-                                 "topo": rng.choice(["popen", "popen", "via", "socket"])} for _ in range(rng.randint(1, 3))]})
+                                 "topo": rng.choice(["popen", "popen", "via", "socket", "socket_standalone"])} for _ in range(rng.randint(1, 3))]})
     results, lock = [], threading.Lock()
     # scenarios share this process as parent: run a few at a time so that child bookkeeping stays unambiguous -> sequentially
     for sc in scs:
